@@ -20,6 +20,14 @@ const (
 // order to avoid irrecoverable Go stack overflows.
 const maxGoFunctionCallDepth = 1000
 
+// Each synchronous call of a Lua value from Go (a metamethod, a function
+// called by a GoFunction, a message handler...) nests a run of continuations on
+// the Go stack.  The depth of this nesting in one thread is limited for the
+// same reason.  GoFunction calls are already limited, so this limit is only
+// reached through calls which do not go via a GoFunction, e.g. metamethods
+// calling themselves recursively.
+const maxNestedCallDepth = 2 * maxGoFunctionCallDepth
+
 // Data passed between Threads via their resume channel (Thread.resumeCh).
 //
 // Supported types for exception are ContextTerminationError (which means
@@ -51,6 +59,10 @@ type Thread struct {
 	// cannot be recovered from (note that this does not limit recursion for Lua
 	// functions).
 	goFunctionCallDepth int
+
+	// Depth of nested synchronous calls in the thread (see Thread.call).  This
+	// should not exceed maxNestedCallDepth.
+	nestedCallDepth int
 
 	// Number of errors passed to the message handler in the runs of
 	// continuations currently in progress in the thread (see
@@ -295,6 +307,11 @@ func (t *Thread) end(args []Value, err error, exception interface{}) {
 }
 
 func (t *Thread) call(c Callable, args []Value, next Cont) error {
+	t.nestedCallDepth++
+	defer func() { t.nestedCallDepth-- }()
+	if t.nestedCallDepth > maxNestedCallDepth {
+		return errors.New("stack overflow")
+	}
 	cont := c.Continuation(t, next)
 	t.Push(cont, args...)
 	return t.RunContinuation(cont)
